@@ -131,7 +131,10 @@ pub struct C13Case {
 }
 
 fn c13_check(ext: &Externs, dir: &std::path::Path, tag: &str, case: &C13Case) -> Result<Option<Vec<&'static str>>, (String, String)> {
-    let (built, text) = match module_text(&case.history, &Ext::default(), case.fragsel) {
+    // the field types are chosen among those that implement what the selected fragments need
+    let mut history = case.history.clone();
+    history.fragsel = case.fragsel;
+    let (built, text) = match module_text(&history, &Ext::default(), case.fragsel) {
         Some(x) => x,
         None => return Ok(None),
     };
